@@ -478,9 +478,9 @@ def cuckoo_states(tier, rnd, cls=CK):
         for bs in (1, 2):
             for swaps in (1, 2, 3):
                 for auto in (False, True):
-                    for nkeys in (0, 1, 2, 3, 4):
+                    for nkeys in (0, 1, 2, 3, 4, 6):
                         hf = _ck_hash(rnd)
-                        ops = [["add", f"k{rnd.randrange(8)}"] for _ in range(nkeys)]
+                        ops = [["add", f"k{rnd.randrange(8 if rnd.random() < 0.6 else 3)}"] for _ in range(nkeys)]
                         yield {"__recipe__": cls, "args": {"capacity": cap, "bucket_size": bs, "max_swaps": swaps,
                                                           "auto_expand": auto, "finger_size": 1, "hash_function": hf},
                                "ops_tolerant": ops}
@@ -497,5 +497,23 @@ def _g_ck_keys(tier, rnd):
 @gen("CuckooFilter.expand")
 def _g_ck_expand(tier, rnd):
     for rec in cuckoo_states(tier, rnd):
+        for script in ([0] * 12, [rnd.randrange(4) for _ in range(12)]):
+            yield {"self": rec, "args": {}, "rand": script}
+
+
+CCK = "probables.cuckoo.countingcuckoo.CountingCuckooFilter"
+
+
+@gen("CountingCuckooFilter.add", "CountingCuckooFilter.check", "CountingCuckooFilter.remove")
+def _g_cck_keys(tier, rnd):
+    for rec in cuckoo_states(tier, rnd, CCK):
+        for key in ("k0", "k1", "k5"):
+            for script in ([0, 0, 0, 0, 0, 0], [1, 0, 1, 0, 1, 1], [rnd.randrange(4) for _ in range(8)]):
+                yield {"self": rec, "args": {"key": key}, "rand": script}
+
+
+@gen("CountingCuckooFilter.expand")
+def _g_cck_expand(tier, rnd):
+    for rec in cuckoo_states(tier, rnd, CCK):
         for script in ([0] * 12, [rnd.randrange(4) for _ in range(12)]):
             yield {"self": rec, "args": {}, "rand": script}
